@@ -194,6 +194,8 @@ func doCLI(c *core.Ctx, kind string, ns []*core.N, remove, strict bool, args, fi
 		class = "timeout"
 	case strings.Contains(r.Stderr, "panic:") || strings.Contains(r.Stderr, "goroutine "):
 		class = "panic"
+	case r.Exit != 0 && strings.Contains(r.Stderr, "Several possible branches for root placement"):
+		class = "err-several" // the refusal of the finding OutgroupNonStrictMultifurcationRefused
 	case r.Exit != 0:
 		class = "err"
 	}
